@@ -232,6 +232,12 @@ class Ctx:
         self._known = [f for f in load_known_findings(prop) if f.get("status") == "open"]
         self._matchers: Dict[str, Callable[[Dict[str, Any]], bool]] = {}
         self.quick = tier == "quick"
+        if not replay and REPLAY_DIR.exists():          # replay files of earlier runs of this property are stale
+            for f in REPLAY_DIR.glob(f"{prop}-*.json"):
+                try:
+                    f.unlink()
+                except OSError:
+                    pass
 
     # ---- TLC
     def tlc(self, module: str, cfg: str, **kw: Any) -> TLCResult:
